@@ -420,3 +420,46 @@ package boltz
 //@   requires cursor != nil && 0 <= bcLen[cursor] && bcLen[cursor] < MaxInt64 && sortedKeys(bcKeys[cursor], bcLen[cursor])
 //@   modifies bcPos[cursor]
 //@   ensures[direction] result != nil && (forward ==> istype(result, *ForwardBoltCursor)) && (!forward ==> istype(result, *ReverseBoltCursor))
+
+// ---------------------------------------------------------------------------
+// Where cursors come from (C14): the kind (typed/raw) matches how the bucket is keyed, the direction
+// matches the request, and the adapter wraps a cursor of the right bucket.
+// ---------------------------------------------------------------------------
+
+//@ func (*TypedBucket).OpenCursor
+//@   props C14
+//@   requires bucket.Bucket != nil
+//@   pure
+//@   ensures[raw-directed] result != nil && (forward ==> istype(result, *ForwardBoltCursor)) && (!forward ==> istype(result, *ReverseBoltCursor))
+//@ func (*TypedBucket).OpenSeekableCursor
+//@   props C14
+//@   requires bucket.Bucket != nil
+//@   pure
+//@   ensures[raw-forward] result != nil && istype(result, *ForwardBoltCursor)
+//@ func (*TypedBucket).OpenTypedCursor
+//@   props C14
+//@   requires bucket.Bucket != nil
+//@   pure
+//@   ensures[typed-directed] result != nil && (forward ==> istype(result, *TypedForwardBoltCursor) && as(result, *TypedForwardBoltCursor).fieldType == TypeString) && (!forward ==> istype(result, *TypedReverseBoltCursor) && as(result, *TypedReverseBoltCursor).fieldType == TypeString)
+//@ func (*TypedBucket).IterateStringList
+//@   props C14
+//@   requires bucket.Bucket != nil
+//@   pure
+//@   ensures[typed-forward] result != nil && istype(result, *TypedForwardBoltCursor) && as(result, *TypedForwardBoltCursor).fieldType == TypeString
+//@ func (*TypedBucket).IterateStringListInDirection
+//@   props C14
+//@   requires bucket.Bucket != nil
+//@   pure
+//@   ensures[typed-directed] result != nil && (forward ==> istype(result, *TypedForwardBoltCursor)) && (!forward ==> istype(result, *TypedReverseBoltCursor))
+
+//@ func Path
+//@   pure
+//@   ensures result != nil ==> result.Bucket != nil
+//@ func (*setIndex).OpenValueCursor
+//@   props C14
+//@   pure
+//@   ensures[typed-directed-or-empty] result != nil && (istype(result, emptyCursor) || (forward && istype(result, *TypedForwardBoltCursor) && as(result, *TypedForwardBoltCursor).fieldType == TypeString) || (!forward && istype(result, *TypedReverseBoltCursor) && as(result, *TypedReverseBoltCursor).fieldType == TypeString))
+//@ func (*setIndex).OpenKeyCursor
+//@   props C14
+//@   pure
+//@   ensures[raw-directed-or-empty] result != nil && (istype(result, emptyCursor) || (forward && istype(result, *ForwardBoltCursor)) || (!forward && istype(result, *ReverseBoltCursor)))
